@@ -3,6 +3,7 @@
     External matchers (Go regexp, gval, apat, taxonomy predicates) are universally quantified. *)
 From Coq Require Import ZArith List String Bool Permutation.
 From OBI.C16 Require Import Model Proofs.
+From OBI.Common Require Reseq.
 Import ListNotations.
 Open Scope string_scope.
 Open Scope list_scope.
@@ -12,68 +13,60 @@ Section Statements.
   Variables RE EXPR APAT TAXQ : Type.
   Variable re_match : bool -> RE -> string -> bool.
   Variable eval_bool : EXPR -> arec -> bool.
-  Variable approx_match : APAT -> arec -> bool.
+  Variable approx_match : APAT -> Z -> bool -> string -> bool.
+  Variable apat_rc : APAT -> APAT.
   Variable tax_pred : TAXQ -> arec -> bool.
   Notation gopts := (gopts RE EXPR APAT TAXQ).
-  Notation impl_base := (impl_base RE EXPR APAT TAXQ re_match eval_bool approx_match tax_pred).
-  Notation impl_pred := (impl_pred RE EXPR APAT TAXQ re_match eval_bool approx_match tax_pred).
-  Notation impl_paired := (impl_paired RE EXPR APAT TAXQ re_match eval_bool approx_match tax_pred).
-  Notation spec_pred := (spec_pred RE EXPR APAT TAXQ re_match eval_bool approx_match tax_pred).
-  Notation spec_sel := (spec_sel RE EXPR APAT TAXQ re_match eval_bool approx_match tax_pred).
+  Notation impl_base := (impl_base RE EXPR APAT TAXQ re_match eval_bool approx_match apat_rc tax_pred).
+  Notation impl_pred := (impl_pred RE EXPR APAT TAXQ re_match eval_bool approx_match apat_rc tax_pred).
+  Notation impl_paired := (impl_paired RE EXPR APAT TAXQ re_match eval_bool approx_match apat_rc tax_pred).
+  Notation spec_pred := (spec_pred RE EXPR APAT TAXQ re_match eval_bool approx_match apat_rc tax_pred).
+  Notation spec_sel := (spec_sel RE EXPR APAT TAXQ re_match eval_bool approx_match apat_rc tax_pred).
 
   (** [core] the predicate built from ANY combination of options (guards, 2e9 sentinels, nil-propagation
       included) is the conjunction of the requested criteria. Guard: wf_rec r = record of length and count in
       [1, 2e9). *)
   Theorem C16_grep_exact : forall (o : gopts) r, wf_rec r ->
     holds (impl_base o) r = spec_pred o r.
-  Proof. exact (grep_base_exact RE EXPR APAT TAXQ re_match eval_bool approx_match tax_pred). Qed.
+  Proof. exact (grep_base_exact RE EXPR APAT TAXQ re_match eval_bool approx_match apat_rc tax_pred). Qed.
 
-  (** -v keeps exactly the others — PARTIAL: needs at least one effective criterion (impl_base o <> None,
-      characterised by C16_effective_iff). The full statement (no such hypothesis) is false of the code: see
-      C16_grep_invert_nil_refuted, known finding C16/nil-predicate-shortcut. *)
-  Theorem C16_grep_exact_invert_partial : forall (o : gopts) r, wf_rec r ->
-    invert _ _ _ _ o = false \/ impl_base o <> None ->
+  (** [core] -v keeps exactly the others, for EVERY option set — formerly C16_grep_exact_invert_partial (guard
+      "at least one effective criterion"): since fix eafa00e the negation of the nil predicate rejects every record *)
+  Theorem C16_grep_exact_invert : forall (o : gopts) r, wf_rec r ->
     holds (impl_pred o) r = (if invert _ _ _ _ o then negb (spec_pred o r) else spec_pred o r).
-  Proof. exact (grep_exact RE EXPR APAT TAXQ re_match eval_bool approx_match tax_pred). Qed.
+  Proof. exact (grep_exact RE EXPR APAT TAXQ re_match eval_bool approx_match apat_rc tax_pred). Qed.
 
   Theorem C16_effective_iff : forall (o : gopts), impl_base o = None <-> effective RE EXPR APAT TAXQ o = false.
-  Proof. exact (impl_base_none_iff RE EXPR APAT TAXQ re_match eval_bool approx_match tax_pred). Qed.
+  Proof. exact (impl_base_none_iff RE EXPR APAT TAXQ re_match eval_bool approx_match apat_rc tax_pred). Qed.
 
-  (** what the code does instead when no criterion is effective: every record is kept, -v or not *)
-  Theorem C16_grep_nil_keeps_all : forall (o : gopts) r, impl_base o = None -> holds (impl_pred o) r = true.
-  Proof. exact (grep_invert_nil RE EXPR APAT TAXQ re_match eval_bool approx_match tax_pred). Qed.
+  (** no effective criterion: every record is kept, and with -v none *)
+  Theorem C16_grep_nil_all_or_none : forall (o : gopts) r, impl_base o = None -> holds (impl_pred o) r = negb (invert _ _ _ _ o).
+  Proof. exact (grep_invert_nil RE EXPR APAT TAXQ re_match eval_bool approx_match apat_rc tax_pred). Qed.
 
   (** --save-discarded: the two streams of DivideOn are the records that satisfy the selection, and exactly
-      the others, each in input order *)
+      the others, each in input order (no guard any more) *)
   Theorem C16_grep_discarded_complement : forall (o : gopts) l, Forall wf_rec l ->
-    invert _ _ _ _ o = false \/ impl_base o <> None ->
     divide_on (holds (impl_pred o)) l = (filter (spec_sel o) l, filter (fun r => negb (spec_sel o r)) l).
-  Proof. exact (grep_divide_exact RE EXPR APAT TAXQ re_match eval_bool approx_match tax_pred). Qed.
+  Proof. exact (grep_divide_exact RE EXPR APAT TAXQ re_match eval_bool approx_match apat_rc tax_pred). Qed.
 
-  (** [core] the six paired modes are the six Boolean functions of (forward, reverse) their names say *)
-  Theorem C16_paired_modes : forall (o : gopts) r mate, wf_rec r -> wf_rec mate -> impl_base o <> None ->
+  (** [core] the six paired modes are the six Boolean functions of (forward, reverse) their names say, for every option
+      set (andnot / xor without an effective criterion keep nothing) *)
+  Theorem C16_paired_modes : forall (o : gopts) r mate, wf_rec r -> wf_rec mate ->
     holds2 (impl_paired o) r (Some mate) = mode_fun (pairmode _ _ _ _ o) (spec_sel o r) (spec_sel o mate).
-  Proof. exact (paired_modes RE EXPR APAT TAXQ re_match eval_bool approx_match tax_pred). Qed.
+  Proof. exact (paired_modes RE EXPR APAT TAXQ re_match eval_bool approx_match apat_rc tax_pred). Qed.
   Theorem C16_paired_unpaired_record : forall (o : gopts) r, holds2 (impl_paired o) r None = holds (impl_pred o) r.
-  Proof. exact (paired_unpaired RE EXPR APAT TAXQ re_match eval_bool approx_match tax_pred). Qed.
+  Proof. exact (paired_unpaired RE EXPR APAT TAXQ re_match eval_bool approx_match apat_rc tax_pred). Qed.
 
   (** paired input, any mode, with or without --save-discarded: the pairs written to (_R1, _R2) are exactly the pairs whose
       (forward, reverse) selection values satisfy the mode, rank by rank; the discarded (_R1, _R2) are exactly the others *)
   Theorem C16_paired_divide_exact : forall (o : gopts) l,
-    Forall (fun fr : arec * arec => wf_rec (fst fr) /\ wf_rec (snd fr)) l -> impl_base o <> None ->
+    Forall (fun fr : arec * arec => wf_rec (fst fr) /\ wf_rec (snd fr)) l ->
     let sel := fun fr : arec * arec => mode_fun (pairmode _ _ _ _ o) (spec_sel o (fst fr)) (spec_sel o (snd fr)) in
     let out := grep_paired_divide (holds2 (impl_paired o)) l in
     combine (fst (fst out)) (snd (fst out)) = filter sel l /\
     combine (fst (snd out)) (snd (snd out)) = filter (fun fr => negb (sel fr)) l.
-  Proof. exact (paired_divide_exact RE EXPR APAT TAXQ re_match eval_bool approx_match tax_pred). Qed.
+  Proof. exact (paired_divide_exact RE EXPR APAT TAXQ re_match eval_bool approx_match apat_rc tax_pred). Qed.
 End Statements.
-
-(** the witness of the known finding: `obigrep -v` (no criterion) keeps a record that satisfies every
-    (zero) requested criterion, where -v asks for the others *)
-Theorem C16_grep_invert_nil_refuted :
-  exists (o : cgopts) (r : arec), invert _ _ _ _ o = true /\ wf_rec r /\
-    c_spec_sel o r = false /\ holds (c_impl_pred o) r = true.
-Proof. exact grep_invert_nil_witness. Qed.
 
 (** DivideOn in general: kept ++ discarded is a permutation of the input, kept = filter p, discarded = filter (not p) *)
 Theorem C16_divide_partition : forall A (p : A -> bool) l,
@@ -82,29 +75,77 @@ Theorem C16_divide_partition : forall A (p : A -> bool) l,
   (forall x, In x (fst (divide_on p l)) -> p x = true) /\ (forall x, In x (snd (divide_on p l)) -> p x = false).
 Proof. exact divide_complement. Qed.
 
+(** obimultiplex -u FILE: `unidentified, out = newIter.DivideOn(HasAttribute("obimultiplex_error"))` — every read processed by
+    the barcode worker reaches exactly one of the two outputs, chosen by the presence of that attribute on the read alone *)
+Theorem C16_unidentified_route : forall (l : list arec),
+  let err := fun r : arec => has_key "obimultiplex_error" (rattrs r) in
+  divide_on err l = (filter err l, filter (fun r => negb (err r)) l) /\
+  Permutation (fst (divide_on err l) ++ snd (divide_on err l)) l /\
+  (forall r, In r (fst (divide_on err l)) -> err r = true) /\ (forall r, In r (snd (divide_on err l)) -> err r = false).
+Proof. exact unidentified_route. Qed.
+
 (** both mates are kept or dropped together and stay at the same rank of the two output files *)
 Theorem C16_paired_mates_together : forall p l,
   combine (fst (grep_paired p l)) (snd (grep_paired p l)) = filter (fun fr => p (fst fr) (Some (snd fr))) l /\
   List.length (fst (grep_paired p l)) = List.length (snd (grep_paired p l)).
 Proof. exact paired_mates_together. Qed.
 
-(** [core] the chain built by CLIAnnotationWorker (ChainWorkers with nil handling, SeqToSliceWorker that skips
-    failing records) applies every requested edit once, in the documented order, for every subset and
-    multiplicity of edits; a record is dropped exactly when an expression or the cut fails on it *)
-Theorem C16_annotate_all_edits : forall VEXPR (eval_val : VEXPR -> arec -> option aval) (o : aopts VEXPR) r,
-  impl_annot VEXPR eval_val o r = olist (spec_annot VEXPR eval_val o r).
-Proof. exact annot_exact. Qed.
+Section AnnotStatements.
+  Variable VEXPR : Type.
+  Variable eval_val : VEXPR -> arec -> option aval.
+  Variable at_rank : string -> arec -> arec.
+  Variables set_path set_trank set_sciname : arec -> arec.
+  Variable set_lca : string -> arec -> arec.
+  Variable AHO : Type.
+  Variable aho_edit : AHO -> arec -> arec.
+  Variable APAT : Type.
+  Variable apat_src : APAT -> string.
+  Variable apat_rc : APAT -> APAT.
+  Variable best_match : APAT -> Z -> bool -> string -> option (Z * Z * Z).
+  Notation aopts := (aopts VEXPR AHO APAT).
+  Notation impl_annot := (impl_annot VEXPR eval_val at_rank set_path set_trank set_sciname set_lca AHO aho_edit APAT apat_src apat_rc best_match).
+  Notation impl_annot_sel := (impl_annot_sel VEXPR eval_val at_rank set_path set_trank set_sciname set_lca AHO aho_edit APAT apat_src apat_rc best_match).
+  Notation spec_annot := (spec_annot VEXPR eval_val at_rank set_path set_trank set_sciname set_lca AHO aho_edit APAT apat_src apat_rc best_match).
 
-(** ... and changes nothing else: attributes not named by an edit, the sequence and the identifier *)
-Theorem C16_annotate_untouched : forall VEXPR (eval_val : VEXPR -> arec -> option aval) (o : aopts VEXPR) r r' k,
-  spec_annot VEXPR eval_val o r = Some r' ->
-  aclear _ o = false -> (akeep _ o = [] \/ mem_str k (akeep _ o) = true) -> touched VEXPR o k = false ->
-  lookup k (rattrs r') = lookup k (rattrs r).
-Proof. exact annot_untouched. Qed.
-Theorem C16_annotate_seq_id_untouched : forall VEXPR (eval_val : VEXPR -> arec -> option aval) (o : aopts VEXPR) r r',
-  spec_annot VEXPR eval_val o r = Some r' -> has_cut VEXPR o = None ->
-  rseq r' = rseq r /\ (asetid _ o = None -> rid r' = rid r).
-Proof. exact annot_seq_id_untouched. Qed.
+  (** [core] the chain built by CLIAnnotationWorker (ChainWorkers with nil handling, SeqToSliceWorker that skips
+      failing records) applies every requested edit once, in the documented order (clear, set-id, delete, keep, rename incl.
+      the record fields id / sequence, taxon-at-rank, path, rank, scientific name, lca, length, -S, aho-corasick, cut,
+      pattern with its error budget / strand / indel flags), for every subset and multiplicity of edits; a record is
+      dropped exactly when an expression or the cut fails on it *)
+  Theorem C16_annotate_all_edits : forall (o : aopts) r, impl_annot o r = olist (spec_annot o r).
+  Proof. exact (annot_exact VEXPR eval_val at_rank set_path set_trank set_sciname set_lca AHO aho_edit APAT apat_src apat_rc best_match). Qed.
+
+  (** selection options restrict WHICH records are edited: the selected ones get every edit, the others are written
+      unchanged; a selection without any edit is the identity (after fixes 9700221, 6a224c7) *)
+  Theorem C16_annotate_selection : forall (sel : option pred) (o : aopts) r,
+    impl_annot_sel sel o r = (if holds sel r then olist (spec_annot o r) else [r]).
+  Proof. exact (annot_sel_exact VEXPR eval_val at_rank set_path set_trank set_sciname set_lca AHO aho_edit APAT apat_src apat_rc best_match). Qed.
+
+  (** ... and changes nothing else: attributes not named by an edit, the sequence and the identifier. Stated for the option
+      sets without external edits (taxonomy, aho-corasick, --pattern write the slots their own components define). *)
+  Theorem C16_annotate_untouched : forall (o : aopts) r r' k, no_ext VEXPR AHO APAT o ->
+    spec_annot o r = Some r' ->
+    aclear _ _ _ o = false -> (akeep _ _ _ o = [] \/ mem_str k (akeep _ _ _ o) = true) -> touched VEXPR AHO APAT o k = false ->
+    lookup k (rattrs r') = lookup k (rattrs r).
+  Proof. exact (annot_untouched VEXPR eval_val at_rank set_path set_trank set_sciname set_lca AHO aho_edit APAT apat_src apat_rc best_match). Qed.
+  Theorem C16_annotate_seq_id_untouched : forall (o : aopts) r r', no_ext VEXPR AHO APAT o -> sets_special VEXPR AHO APAT o = false ->
+    spec_annot o r = Some r' -> has_cut VEXPR AHO APAT o = None ->
+    rseq r' = rseq r /\ (asetid _ _ _ o = None -> rid r' = rid r).
+  Proof. exact (annot_seq_id_untouched VEXPR eval_val at_rank set_path set_trank set_sciname set_lca AHO aho_edit APAT apat_src apat_rc best_match). Qed.
+  (** the same with the external edits requested too, their frame being a hypothesis: if the taxonomy edits and the
+      Aho-Corasick counter write only slots of [ext_key] (and keep identifier and sequence), an attribute that no requested
+      edit names, that is not such a slot and not one of the four --pattern slots is unchanged *)
+  Theorem C16_annotate_untouched_ext : forall (ext_key : string -> bool),
+    (forall rk, frame ext_key (at_rank rk)) -> frame ext_key set_path -> frame ext_key set_trank -> frame ext_key set_sciname ->
+    (forall s, frame ext_key (set_lca s)) -> (forall h, frame ext_key (aho_edit h)) ->
+    forall (o : aopts) r r' k,
+    spec_annot o r = Some r' ->
+    aclear _ _ _ o = false -> (akeep _ _ _ o = [] \/ mem_str k (akeep _ _ _ o) = true) ->
+    touched VEXPR AHO APAT o k = false -> ext_key k = false ->
+    (apattern _ _ _ o = None \/ pat_keys (ptname _ _ _ o) k = false) ->
+    lookup k (rattrs r') = lookup k (rattrs r).
+  Proof. exact (annot_untouched_ext VEXPR eval_val at_rank set_path set_trank set_sciname set_lca AHO aho_edit APAT apat_src apat_rc best_match). Qed.
+End AnnotStatements.
 
 (** --cut from:to (from > 0, to <> 0) keeps bases from..t of EACH record (t = min(to, length), or length + to + 1 for
     a negative `to`), whatever was processed before; the record is discarded exactly when that range is empty *)
@@ -123,6 +164,43 @@ Theorem C16_route_exactly_one : forall (A K : Type) (keq : K -> K -> bool) (code
     In s (slice_of A K keq (code s) (distribute A K keq code l)) /\
     (forall k, In s (slice_of A K keq k (distribute A K keq code l)) -> k = code s).
 Proof. exact route_exactly_one. Qed.
+
+(** [core] the same routing at the level of BATCHES (batch size n, any partition of the input into batches): what is pushed
+    on the output of class k, batch after batch, is exactly the records of class k in input order — however many times the
+    buffer of a class fills up inside a run of records of the same class (seed C16-A) *)
+Theorem C16_distribute_batches : forall (A K : Type) (keq : K -> K -> bool) (code : A -> K) (n : nat),
+  (forall a b, keq a b = true <-> a = b) ->
+  forall bs k, List.concat (get_out A K keq k (distribute_batches A K keq code n bs)) = filter (fun s => keq k (code s)) (List.concat bs).
+Proof. exact distribute_batches_flat. Qed.
+(** DivideOn with batch size n: the pushed true / false batches flatten to the selection and exactly its complement *)
+Theorem C16_divide_batches : forall (A : Type) (n : nat) (p : A -> bool) bs,
+  List.concat (fst (divide_batches A n p bs)) = filter p (List.concat bs) /\
+  List.concat (snd (divide_batches A n p bs)) = filter (fun x => negb (p x)) (List.concat bs).
+Proof. exact divide_batches_flat. Qed.
+(** FilterOn: workers filter whole batches (any assignment of batches to workers: each keeps its order number), Rebatch
+    re-cuts the sorted stream: the records written are the selected ones in input order *)
+Theorem C16_filteron_batches : forall (A : Type) (n : nat) (p : A -> bool) bs,
+  List.concat (rebatch A n (filter_batches A p bs)) = filter p (List.concat bs).
+Proof. exact filteron_records. Qed.
+
+(** any schedule: the batches (input batches / batches filtered by the parallel FilterOn workers) reach SortBatches in ANY
+    order; the re-sequencer (Common/Reseq.v, reseq_any_permutation) restores the order numbers, so what each output
+    receives does not depend on the schedule *)
+Theorem C16_filteron_any_schedule : forall (A : Type) (n : nat) (p : A -> bool) (bs : list (list A)) arr,
+  Permutation arr (Reseq.numbered (filter_batches A p bs)) ->
+  List.concat (rebatch A n (Reseq.out (Reseq.run arr))) = filter p (List.concat bs).
+Proof. exact filteron_any_schedule. Qed.
+Theorem C16_distribute_any_arrival : forall (A K : Type) (keq : K -> K -> bool) (code : A -> K) (n : nat),
+  (forall a b, keq a b = true <-> a = b) ->
+  forall (bs : list (list A)) arr, Permutation arr (Reseq.numbered bs) ->
+  forall k, List.concat (get_out A K keq k (distribute_batches A K keq code n (Reseq.out (Reseq.run arr)))) =
+            filter (fun s => keq k (code s)) (List.concat bs).
+Proof. exact distribute_any_arrival. Qed.
+Theorem C16_divide_any_arrival : forall (A : Type) (n : nat) (p : A -> bool) (bs : list (list A)) arr,
+  Permutation arr (Reseq.numbered bs) ->
+  List.concat (fst (divide_batches A n p (Reseq.out (Reseq.run arr)))) = filter p (List.concat bs) /\
+  List.concat (snd (divide_batches A n p (Reseq.out (Reseq.run arr)))) = filter (fun x => negb (p x)) (List.concat bs).
+Proof. exact divide_any_arrival. Qed.
 
 (** hypotheses are satisfiable / the statements are not vacuous: an option set with several criteria keeps one
     record and drops another; an annotate chain with five edits changes a record *)
@@ -150,6 +228,38 @@ Example C16_cut_history_free_regression :
   flat_map (c_impl_annot (mka false None [] [] [] false [] (Some (3, 100)))) [mkr "c2" [] "acgtac"; mkr "c1" [] "acgtacgtacgt"]
   = [mkr "c2_sub[3..6]" [] "gtac"; mkr "c1_sub[3..12]" [] "gtacgtacgt"].
 Proof. vm_compute. reflexivity. Qed.
+(** regression witnesses of the repaired nil predicate: -v alone keeps nothing; --paired-mode xor alone keeps no pair *)
+Example C16_invert_nil_regression :
+  let o := mkg 1 SENT 1 SENT [] [] [] [] [] [] None true MForward [] [] [] in
+  let r := mkr "w1" [("count", VI 6)] "acgtacgtac" in
+  (holds (c_impl_pred o) r, c_spec_sel o r,
+   holds2 (c_impl_paired (mkg 1 SENT 1 SENT [] [] [] [] [] [] None false MXor [] [] [])) r (Some r),
+   holds2 (c_impl_paired (mkg 1 SENT 1 SENT [] [] [] [] [] [] None false MOr [] [] [])) r (Some r)) = (false, false, false, true).
+Proof. vm_compute. reflexivity. Qed.
+(** obiannotate with a selection: the unselected record is written unchanged; rename to the id field; string-typed count *)
+Example C16_selection_special_nonvacuous :
+  let sel := c_impl_pred (mkg 8 SENT 1 SENT [] [] [] [] [] [] None false MForward [] [] []) in
+  let o := mka false None [] [] [("id", "n")] true [] None in
+  (flat_map (c_impl_annot_sel sel o) [mkr "c2" [("n", VI 3)] "acgtac"; mkr "c4" [("n", VI 3)] "acgtacgtacgt"],
+   rcount (mkr "t1" [("count", VS "6")] "a")) =
+  ([mkr "c2" [("n", VI 3)] "acgtac"; mkr "3" [("seq_length", VI 12)] "acgtacgtacgt"], 1).
+Proof. vm_compute. reflexivity. Qed.
+(** a frame hypothesis of C16_annotate_untouched_ext holds of the concrete --scientific-name edit *)
+Example C16_frame_nonvacuous : frame (fun k => String.eqb k "scienctific_name") c_set_sciname.
+Proof. exact c_sciname_frame. Qed.
+(** --approx-pattern: error budget, strand and indel flags *)
+Example C16_approx_nonvacuous :
+  let g := fun apx e indel fwd => mkg2 1 SENT 1 SENT [] [] [] [] [] [] None false MForward [] [] [] apx e indel fwd in
+  let r := mkr "s" [] "ttttacgtacgtacgtttt" in
+  (holds (c_impl_pred (g ["acgaacgt"] 0 false false)) r, holds (c_impl_pred (g ["acgaacgt"] 1 false false)) r,
+   holds (c_impl_pred (g ["aaaacgt"] 0 false false)) r, holds (c_impl_pred (g ["aaaacgt"] 0 false true)) r,
+   holds (c_impl_pred (g ["acgacgtac"] 1 false false)) r, holds (c_impl_pred (g ["acgacgtac"] 1 true false)) r)
+  = (false, true, true, false, false, true).
+Proof. vm_compute. reflexivity. Qed.
+(** a run of 5 records of the same class with batch size 2: the class buffer fills twice inside the run *)
+Example C16_distribute_batches_nonvacuous :
+  distribute_batches Z bool Bool.eqb (fun z => z <? 10) 2 [[1; 2; 3]; [4; 20; 5]] = [(true, [[1; 2]; [3; 4]; [5]]); (false, [[20]])].
+Proof. vm_compute. reflexivity. Qed.
 (** taxonomic restrictions on the small concrete taxonomy: -r 30 keeps a species of genus 30, drops one of genus 31;
     -i 30 does the opposite; --require-rank genus drops a species attached to a family *)
 Example C16_taxonomy_nonvacuous :
@@ -171,19 +281,27 @@ Example C16_cut_nonvacuous :
 Proof. vm_compute. repeat split; reflexivity. Qed.
 
 Print Assumptions C16_grep_exact.
-Print Assumptions C16_grep_exact_invert_partial.
+Print Assumptions C16_grep_exact_invert.
 Print Assumptions C16_effective_iff.
-Print Assumptions C16_grep_nil_keeps_all.
+Print Assumptions C16_grep_nil_all_or_none.
 Print Assumptions C16_grep_discarded_complement.
 Print Assumptions C16_paired_modes.
 Print Assumptions C16_paired_unpaired_record.
 Print Assumptions C16_paired_divide_exact.
-Print Assumptions C16_grep_invert_nil_refuted.
 Print Assumptions C16_divide_partition.
+Print Assumptions C16_unidentified_route.
 Print Assumptions C16_paired_mates_together.
 Print Assumptions C16_annotate_all_edits.
+Print Assumptions C16_annotate_selection.
 Print Assumptions C16_annotate_untouched.
 Print Assumptions C16_annotate_seq_id_untouched.
+Print Assumptions C16_annotate_untouched_ext.
 Print Assumptions C16_cut_exact.
 Print Assumptions C16_route_slices.
 Print Assumptions C16_route_exactly_one.
+Print Assumptions C16_distribute_batches.
+Print Assumptions C16_divide_batches.
+Print Assumptions C16_filteron_batches.
+Print Assumptions C16_filteron_any_schedule.
+Print Assumptions C16_distribute_any_arrival.
+Print Assumptions C16_divide_any_arrival.
